@@ -473,6 +473,24 @@ theorem convLeaf_int {ext : Ext} {k : LeafKind} {t : IntTy} {v val j : Int}
 
 theorem isUtf8B_takeRest (b : B) : (takeRest b).isUtf8B = b.isUtf8B := by cases b <;> rfl
 
+theorem refusesStr_takeRest (b : B) : (takeRest b).refusesStr = b.refusesStr := by cases b <;> rfl
+
+/-- a value builder that refuses strings refuses every string -/
+theorem pushScalar_refusesStr (ext : Ext) {vals vals' : B} {s : String} (hr : vals.refusesStr = true)
+    (h : pushScalar ext vals (.str s) = .ok vals') : False := by
+  cases vals with
+  | leaf p k v xs =>
+    cases k <;> simp [B.refusesStr] at hr <;>
+      simp [pushScalar, convLeaf, notSupported, fail, bind, Except.bind] at h
+  | bytes p ty v offs data =>
+    simp only [B.refusesStr, Bool.not_eq_true'] at hr
+    simp [pushScalar, hr, notSupported, fail, bind, Except.bind] at h
+  | bytesView p ty v views buf =>
+    simp only [B.refusesStr, Bool.not_eq_true'] at hr
+    simp [pushScalar, hr, notSupported, fail, bind, Except.bind] at h
+  | dictionary _ _ _ _ => simp [B.refusesStr] at hr
+  | _ => simp [pushScalar, notSupported, fail] at h
+
 theorem isIntLeaf_takeRest (b : B) : (takeRest b).isIntLeaf = b.isIntLeaf := by
   cases b with
   | leaf p k v vals => cases k <;> rfl
@@ -507,11 +525,14 @@ theorem pushScalar_utf8_str (ext : Ext) {vals vals' : B} {s : String} (hw : WFB 
 /-- the dictionary invariant "values decoded = index entries" survives a new entry -/
 theorem DictVals_push (ext : Ext) {vals vals' : B} {index : List String} {s : String} (hw : WFB vals)
     (hd : DictVals vals index) (h : pushScalar ext vals (.str s) = .ok vals') : DictVals vals' (index ++ [s]) := by
-  intro hu
-  have hu0 : vals.isUtf8B = true := by
-    rw [← isUtf8B_takeRest, ← pushScalar_takeRest ext vals _ vals' h, isUtf8B_takeRest]; exact hu
-  rw [pushScalar_utf8_str ext hw hu0 h, hd hu0]
-  simp
+  refine ⟨fun hu => ?_, fun hr => ?_⟩
+  · have hu0 : vals.isUtf8B = true := by
+      rw [← isUtf8B_takeRest, ← pushScalar_takeRest ext vals _ vals' h, isUtf8B_takeRest]; exact hu
+    rw [pushScalar_utf8_str ext hw hu0 h, hd.1 hu0]
+    simp
+  · have hr0 : vals.refusesStr = true := by
+      rw [← refusesStr_takeRest, ← pushScalar_takeRest ext vals _ vals' h, refusesStr_takeRest]; exact hr
+    exact (pushScalar_refusesStr ext hr0 h).elim
 
 /-- the row a scalar call appends (and, for an integer call, that an integer row shows exactly that integer) -/
 theorem pushScalar_appends (ext : Ext) : ∀ (b : B) (x : SVal) (b' : B), WFB b → Safe b → pushScalar ext b x = .ok b' →
